@@ -66,6 +66,8 @@ WHAT_NUMSTR = ("F-C13c: a string column whose first cell looks like a number can
 WHAT_HASH = "F-C13d: a string cell containing '#' breaks reading (genfromtxt treats it as a comment)"
 WHAT_LSPACE = "F-C13e: leading white space of a string cell is lost on reading"
 WHAT_U64 = "F-C13f: unsigned integers >= 2^63 of a csv column come back as rounded floats"
+WHAT_DQUOTE = ("F-C13h: a csv column name containing a double quote comes back without it (numpy genfromtxt's name validator "
+               "always deletes '\"' from names, also with deletechars='')")
 WHAT_EXCL = ("F-C13g: csv columns named 'file', 'print' or 'return' come back as 'file_', 'print_', 'return_' "
              "(numpy genfromtxt's name validator appends '_' to the names on its fixed exclusion list)")
 
@@ -568,8 +570,9 @@ def mesh_stream(ctx, n):
 
 
 # ------------------------------------------------------------------------------------------------ tables
-WORDS = ["a", "b", "ab", "zz", "q", "left", "right", "Alpha", "x_y", "n/a", "on-off", "x y", "v1", "r2d2", "é"]
-NAMES = ["x", "y", "p", "vel", "id", "tag", "T", "rho", "u_x", "Time", "k2", "_z"]
+WORDS = ["a", "b", "ab", "zz", "q", "left", "right", "Alpha", "x_y", "n/a", "on-off", "x y", "v1", "r2d2", "é", '2"-pvc', "it's", '"q"',
+         "a;b", "tab\there"]
+NAMES = ["x", "y", "p", "vel", "id", "tag", "T", "rho", "u_x", "Time", "k2", "_z", "p'"]
 
 
 def gen_table(rng):
@@ -673,6 +676,7 @@ def table_stream(ctx, n):
         (WHAT_LSPACE, [["s", "str", [" a", "c"]], ["b", "float", [3.0, 4.5]]]),
         (WHAT_U64, [["n", "uint", [2 ** 63 + 1, 2 ** 64 - 1]], ["b", "float", [3.0, 4.5]]]),
         (WHAT_EXCL, [["file", "float", [1.5, 2.25]], ["print", "int", [1, 2]], ["return", "str", ["x", "yz"]], ["t", "float", [0.5, 1.0]]]),
+        (WHAT_DQUOTE, [['d"', "float", [1.5, 2.25]], ['2"-pipe', "str", ["x", 'y"z']], ["t", "int", [1, 2]]]),
     ]
     for what, cols in probes:
         bad = table_roundtrip(cols, base)
@@ -697,7 +701,7 @@ def run(ctx):
                 "files / rewritten; tables with float / int / str columns.  non-trivial = at least one field or a transformation")
     return ctx.finish(
         assumptions=["meshes have at least one point and one cell of every listed type (the writer refuses empty arrays)",
-                     "csv: names and string cells without delimiter / newline / quote, non-empty, not parseable as numbers "
+                     "csv: names and string cells without delimiter / newline, non-empty, not parseable as numbers (quote characters included) "
                      "(column typing int / float / str is numpy's)", "str(float) / float(str) round trip is an oracle"],
         trusted=["harness/c13.py, harness/c05.py (generators), harness/vtkenc.py", "xml.etree for locating the DataArray elements of written files"])
 
